@@ -87,6 +87,7 @@ type Run struct {
 	ufMemo    map[string]*Term
 	noValidate bool
 	symNodes   []*Object
+	formats    map[[2]int]Str
 
 	frame *Frame
 	depth int
